@@ -100,6 +100,10 @@ def histories():
                                    [(eax, Op('*', eax, C(0x10001)))]], []))
     H.append(('alu-mixed-symbolic', [[(eax, Op('&', eax, C(0xFF00)))], [(ebx, Op('>>', eax, C(8)))], [(ecx, Op('+', ecx, Op('-', ecx)))], [(edx, Op('|', edx, C(0)))],
                                      [(M(esi, 32), Op('+', ebx, ecx))]], [M(esi, 8), M(at(esi, 1), 8)]))
+    H.append(('wide-store-over-cell-at-same-address-and-cell-inside', [[(M(esi, 8), lo8(eax))], [(M(at(esi, 1), 8), hi8(eax))], [(M(esi, 32), ecx)]],
+              [M(at(esi, 1), 8), M(esi, 8), M(esi, 32), M(at(esi, 1), 16)]))
+    H.append(('narrow-stores-inside-wide-cell-then-wide-store', [[(M(edi, 32), eax)], [(M(at(edi, 2), 8), lo8(ebx))], [(M(edi, 16), lo16(ecx))], [(M(edi, 32), edx)]],
+              [M(at(edi, 2), 8), M(edi, 16), M(at(edi, 3), 8), M(edi, 32)]))
     # a count (or a factor) that the state binds to a constant while the value stays symbolic
     H.append(('shift-count-bound-to-zero', [[(ecx, C(0))], [(ebx, Op('<<', ebx, ecx))], [(edx, Op('>>>', edx, ecx))], [(edi, Op('a>>', eax, ecx))], [(eax, Op('&', eax, ecx))]], []))
     H.append(('shift-count-bound-to-32', [[(ecx, C(32))], [(ebx, Op('<<<', ebx, ecx))], [(edx, Op('>>', edx, Op('&', ecx, C(0x1F))))], [(eax, Op('*', eax, Op('>>', ecx, C(5))))]], []))
